@@ -682,6 +682,8 @@ def gen_backup(rng, tier):
     if rng.random() < 0.6:
         ks = sorted(set(sim.key() for _ in range(rng.randrange(0, 6))))
         line += ' churn=' + (','.join(map(str, ks)) if ks else '.')
+        if delta and rng.random() < 0.5:
+            line += ' churnat=gc'
         sim.refs.append(0)
         sim.epoch += 1
     sim.lines.append(line)
